@@ -21,6 +21,7 @@ type SpecEnv struct {
 	lookup func(name string) (Term, types.Type, bool) // program-point resolver
 	pkg    *types.Package
 	rangePos func() (Term, bool)
+	retInstr *ssa.Return // the return statement a postcondition is evaluated at
 }
 
 type sval struct {
@@ -851,6 +852,21 @@ func (env *SpecEnv) call(x *SExpr) (sval, error) {
 			}
 			return sval{app(SInt, "g.src", env.f.asInt(i.t)), types.Typ[types.Rune]}, nil
 		}
+	case "returnsmethod":
+		// returnsmethod("name"): the value returned here (first result) is,
+		// syntactically, the method value x.name of some x (a state function
+		// handing over to the next one)
+		if len(args) == 1 && args[0].Op == "str" && env.retInstr != nil && len(env.retInstr.Results) > 0 {
+			if mc, ok := env.retInstr.Results[0].(*ssa.MakeClosure); ok {
+				if fn, ok := mc.Fn.(*ssa.Function); ok {
+					if tgt := boundMethodTarget(fn); tgt != nil && tgt.Name() == args[0].Name {
+						return sval{tTrue, types.Typ[types.Bool]}, nil
+					}
+				}
+			}
+			return sval{tFalse, types.Typ[types.Bool]}, nil
+		}
+		return sval{}, fmt.Errorf("returnsmethod: only in a postcondition, with a method name")
 	case "closed":
 		// ghost: the channel has been closed
 		ch, err := env.eval(args[0])
